@@ -32,6 +32,25 @@ package aucoalesce
 //@ ensures[C09] msg == nil ==> result0.Timestamp == syscall.Timestamp && result0.Sequence == syscall.Sequence && result0.Type == syscall.RecordType
 //@ ensures[C15] (msg != nil ==> msgOK(msg) && msg.data == old(msg.data)) && (syscall != nil ==> msgOK(syscall) && syscall.data == old(syscall.data))
 //@ loop 0 invariant fresh(event) && event.Data != nil && fresh(event.Data) && (event.User.IDs == nil || fresh(event.User.IDs)) && (event.User.SELinux == nil || fresh(event.User.SELinux))
+// C09 no-drop for the primary record (data is newEvent's local: the map returned by
+// Data() of the syscall record, or of msg when there is none): result and ses move to
+// Result / Session, *uid / *gid keys to User.IDs, subj_* keys to User.SELinux without
+// the prefix (presence of the key is proved; that its value is the record's needs that two
+// different subj_ keys have different tails, which the string axioms used here do not give), everything else to Data.
+//@ spec idKey(k string) bool := len(k) >= 3 && (k[len(k)-3:] == "uid" || k[len(k)-3:] == "gid")
+//@ spec subjKey(k string) bool := len(k) >= 5 && k[0:5] == "subj_"
+//@ spec plainKey(k string) bool := k != "result" && k != "ses"
+//@ witness[C09] len(result0.Warnings) == 0 && "result" in data ==> result0.Result == data["result"]
+//@ witness[C09] len(result0.Warnings) == 0 && "ses" in data ==> result0.Session == data["ses"]
+//@ witness[C09] len(result0.Warnings) == 0 ==> forall k string :: k in data && plainKey(k) && idKey(k) ==> result0.User.IDs != nil && k in result0.User.IDs && result0.User.IDs[k] == data[k]
+//@ witness[C09] len(result0.Warnings) == 0 ==> forall k string :: k in data && plainKey(k) && !idKey(k) && subjKey(k) ==> result0.User.SELinux != nil && k[5:] in result0.User.SELinux
+//@ witness[C09] len(result0.Warnings) == 0 ==> forall k string :: k in data && plainKey(k) && !idKey(k) && !subjKey(k) ==> k in result0.Data && result0.Data[k] == data[k]
+//@ loop 0 invariant len(event.Warnings) == 0 && ("result" in data ==> event.Result == data["result"]) && ("ses" in data ==> event.Session == data["ses"])
+//@ loop 0 invariant event.User.IDs != data && event.User.SELinux != data && event.Data != data && allocated(data)
+//@ loop 0 invariant data != nil && !fresh(data) && event.User.IDs != event.Data && event.User.SELinux != event.Data && (event.User.IDs == nil || event.User.IDs != event.User.SELinux)
+//@ loop 0 invariant forall k string :: visited(k) && plainKey(k) && idKey(k) ==> event.User.IDs != nil && k in event.User.IDs && event.User.IDs[k] == data[k]
+//@ loop 0 invariant forall k string :: visited(k) && plainKey(k) && !idKey(k) && subjKey(k) ==> event.User.SELinux != nil && k[5:] in event.User.SELinux
+//@ loop 0 invariant forall k string :: visited(k) && plainKey(k) && !idKey(k) && !subjKey(k) ==> k in event.Data && event.Data[k] == data[k]
 //
 //@ func aucoalesce.addExecveRecord
 //@ frame-fresh[C15]
@@ -44,6 +63,9 @@ package aucoalesce
 //
 //@ func aucoalesce.addPathRecord
 //@ frame-fresh[C15]
+// C09 no-drop for PATH records: unless a warning is attached, the record's whole map becomes the last element of Paths.
+//@ ensures[C09] len(event.Warnings) == old(len(event.Warnings)) ==> len(event.Paths) == old(len(event.Paths)) + 1 && event.Paths[len(event.Paths)-1] == old(path.data)
+//@ ensures[C09] forall j int :: old(lo(event.Paths)) <= j && j < old(hi(event.Paths)) ==> at(event.Paths, j) == old(at(event.Paths, j))
 //@ ensures[C09] event.Timestamp == old(event.Timestamp) && event.Sequence == old(event.Sequence) && event.Type == old(event.Type)
 //@ requires msgOK(path) && event != nil && event.Data != nil
 //@ modifies event.*, elems(event.Warnings), elems(event.Paths), alloc, path.data, path.error, path.tags
